@@ -54,6 +54,15 @@ pub fn run(ctx: &Ctx, rep: &mut Report) {
             make_token(&mut u, TokKind::Native, &admin, &mut rng),
             make_token(&mut u, TokKind::Probe, &admin, &mut rng),
         ];
+        let mut toks = toks;
+        // one universe in five handles six tokens instead of three: what the service reports per
+        // token must not depend on how many tokens it has seen
+        if rng.chance(1, 5) {
+            for _ in 0..3 {
+                toks.push(make_token(&mut u, TokKind::Sac, &admin, &mut rng));
+            }
+            rep.count("universe:six-tokens");
+        }
         let spenders: Vec<Address> = (0..3).map(|_| u.principal()).collect();
         let receivers: Vec<Address> = (0..2).map(|_| u.principal()).chain(std::iter::once(spenders[0].clone())).chain(std::iter::once(gs.clone())).chain(std::iter::once(collector.clone())).chain(std::iter::once(owner.clone())).collect();
         // model balances
@@ -203,7 +212,7 @@ pub fn run(ctx: &Ctx, rep: &mut Report) {
                 }
             }
             let op = *rng.pick(&OPS);
-            let ti = rng.usize(3);
+            let ti = rng.usize(toks.len());
             let t = toks[ti].clone();
             let spender = rng.pick(&spenders).clone();
             let receiver = rng.pick(&receivers).clone();
